@@ -11,6 +11,9 @@ VARIABLES i, dev
 vars == <<i, dev>>
 F(idx, name, detail) == [rec |-> idx, pred |-> name, detail |-> ToString(detail)]
 SeqToSet(q) == {q[j] : j \in DOMAIN q}
+RECURSIVE SumDFrom(_, _)
+SumDFrom(a, j) == IF j > Len(a) THEN 0 ELSE (IF a[j].act = "adv" THEN a[j].d ELSE 0) + SumDFrom(a, j + 1)
+SumD(a) == SumDFrom(a, 1)
 Check(r, idx) ==
     LET stable == 0 .. (r.sc.stable - 1)
         missing(g) == stable \ SeqToSet(r.iters[g])
@@ -19,9 +22,37 @@ Check(r, idx) ==
         badD == {g \in DOMAIN r.iters : dup(g)}
     IN (IF badM # {} THEN <<F(idx, "C15.iteration_missed_present_key", <<Cardinality(badM), Len(r.iters), missing(CHOOSE g \in badM : TRUE)>>)>> ELSE <<>>)
        \o (IF badD # {} THEN <<F(idx, "C15.iteration_yielded_key_twice", <<Cardinality(badD), r.iters[CHOOSE g \in badD : TRUE]>>)>> ELSE <<>>)
+\* Loop-body scenarios (one goroutine): the consumer moves the clock, replaces values and invalidates keys between two
+\* yields.  r.exp[k+1] = deadline of key k when the iteration started, r.yields = <<key, value, clock at the yield>>.
+\*   C03 / C12: an entry is never iterated over once the clock has reached its expiration time (keys the body itself
+\*              rewrote are left out: their deadline moved);
+\*   C20:       an iteration is not a counting lookup: hits and misses do not move;
+\*   C15:       a key the body did not touch and that is alive from the first to the last moment is yielded exactly once,
+\*              no key twice;
+\*   C01:       a yielded value is one the key held.
+CheckBody(r, idx) ==
+    LET K == 0 .. (r.sc.n - 1)
+        touched == {r.sc.acts[j].k : j \in {x \in DOMAIN r.sc.acts : r.sc.acts[x].act \in {"set", "inv"}}}
+        Y == DOMAIN r.yields
+        tEnd == IF Len(r.yields) = 0 THEN r.t0 ELSE r.yields[Len(r.yields)][3] + 1000000
+        tLast == r.t0 + SumD(r.sc.acts)
+        late == {y \in Y : r.yields[y][1] \in K \ touched /\ r.exp[r.yields[y][1] + 1] # -1 /\ r.exp[r.yields[y][1] + 1] <= r.yields[y][3]}
+        ghost == {y \in Y : r.yields[y][1] \in K \ touched /\ r.exp[r.yields[y][1] + 1] = -1}
+        keys == [y \in Y |-> r.yields[y][1]]
+        dupl == Cardinality(SeqToSet(keys)) # Len(keys)
+        alive == {k \in K \ touched : r.exp[k + 1] # -1 /\ r.exp[k + 1] > tLast}
+        missed == alive \ SeqToSet(keys)
+        wrongv == {y \in Y : r.yields[y][2] # -1 /\ r.yields[y][1] \in K \ touched /\ r.yields[y][2] # r.yields[y][1]}
+    IN (IF late # {} THEN <<F(idx, "C03.iterated_after_deadline", <<r.sc.kind, {<<r.yields[y][1], r.exp[r.yields[y][1] + 1], r.yields[y][3]>> : y \in late}>>)>> ELSE <<>>)
+       \o (IF ghost # {} THEN <<F(idx, "C03.iterated_absent_key", <<r.sc.kind, {r.yields[y][1] : y \in ghost}>>)>> ELSE <<>>)
+       \o (IF r.st0 # r.st1 THEN <<F(idx, "C20.iteration_moved_lookup_counters", <<r.sc.kind, r.st0, r.st1>>)>> ELSE <<>>)
+       \o (IF dupl THEN <<F(idx, "C15.iteration_yielded_key_twice", <<r.sc.kind, keys>>)>> ELSE <<>>)
+       \o (IF missed # {} THEN <<F(idx, "C15.iteration_missed_present_key", <<r.sc.kind, missed>>)>> ELSE <<>>)
+       \o (IF wrongv # {} THEN <<F(idx, "C01.iterated_value_never_held", <<r.sc.kind, {<<r.yields[y][1], r.yields[y][2]>> : y \in wrongv}>>)>> ELSE <<>>)
+
 Init == i = 1 /\ dev = <<>>
 Next == \/ /\ i <= Len(Recs)
-           /\ dev' = dev \o Check(Recs[i], i)
+           /\ dev' = dev \o (IF Recs[i].t = "iterbody" THEN CheckBody(Recs[i], i) ELSE Check(Recs[i], i))
            /\ i' = i + 1
         \/ /\ i = Len(Recs) + 1
            /\ JsonSerialize(IOEnv.VERIF_DEVOUT, [n |-> Len(Recs), devs |-> dev])
